@@ -316,7 +316,7 @@ def h_heartbeat_loop(h: H):
         del renews[:]
         del waits[:]
         prov.fields["is_locked"] = [True, False][I.ctx.choose(2, "held-at-loop-head")]
-    h.reg.loops[f"{LP}:S3LockProviderBase._heartbeat_loop"] = {"*": LoopSpec(invariant=inv, havoc=havoc, name="rounds")}
+    h.reg.loops[f"{LP}:S3LockProviderBase._heartbeat_loop"] = {"*": LoopSpec(invariant=inv, havoc=havoc, name="rounds", covers=["is_locked"])}
     out, val = h.call(h.I.getattr(prov, "_heartbeat_loop"), [])
     h.ensure("HEARTBEAT:the-thread-never-dies-of-an-exception", out == "ok", detail=repr(val) if out != "ok" else "")
     h.ensure("HEARTBEAT:ends-only-when-told-to-stop-or-no-longer-holding", bool(waits and waits[-1] is True) or prov.fields["is_locked"] is False)
